@@ -97,12 +97,14 @@ func TestC20(t *testing.T) {
 // TestC20Fixed measures the fixed families (shard 0 only).
 func TestC20Fixed(t *testing.T) {
 	tierOverride = os.Getenv("VERIF_TIER_NAME")
-	if os.Getenv("VERIF_SHARD") != "" && os.Getenv("VERIF_SHARD") != "0" {
-		t.Skip("enumerations run in shard 0")
-	}
+	shard, shards, tier := shardInfo()
 	stmts := loadStatementCounts()
 	var reports []Report20
-	for _, f := range FixedFamilies20 {
+	for fi, f := range Families20(tier) {
+		// the enumerated families are split over the shards
+		if fi%shards != shard {
+			continue
+		}
 		rep, _ := Analyse20(f)
 		if s, ok := stmts[f.Name]; ok && len(s) == len(rep.Sizes) && !rep.Trivial {
 			rep.Stmts = s
@@ -144,8 +146,11 @@ func TestC20Fixed(t *testing.T) {
 			}
 		}
 	}
-	core.Extra("fixed_families", summarise20(reports))
-	core.Extra("statement_counter_families", len(stmts))
+	if shard == 0 {
+		core.Extra("fixed_families", summarise20(reports))
+		core.Extra("statement_counter_families", len(stmts))
+		core.Extra("enumerated_families_total", len(Families20(tier)))
+	}
 }
 
 // TestC20Survey prints every super-linear fixed family (development aid; VERIF_C20_SURVEY=1).
